@@ -1,7 +1,7 @@
 ---------------------------- MODULE MC_ImageRef -----------------------------
 EXTENDS ImageRef, Json
 Emit == PrintT(ToJson([L |-> img, ref |-> Ref(img), unsafe |-> Unsafe(img), clean |-> Clean(img),
-                       carrier |-> CarrierEnd(img)]))
+                       carrier |-> CarrierEnd(img), fromfile |-> FromFile(img), readupto |-> ReadUpTo(img)]))
 EmitHostile == PrintT(ToJson([L |-> img, bound |-> Bound(img.fmt),
                               caps |-> [r \in RegionsOf(img.fmt) |-> Cap(img.fmt, r)]]))
 =============================================================================
